@@ -486,4 +486,70 @@ theorem run_counts : ∀ (ops : List Op) (s : Session), SInv s → (∀ op ∈ o
       rw [← hc]
       exact ih s1 hf.sinv (fun o ho => hw o (by simp [ho])) (hd.2 s1 t h1) sf ts' h2
 
+/-! ### small facts used by the property files -/
+
+/-- a fresh allocator satisfies the invariant (the heap part needs `limit ≥ 1`: the allocator
+starts with `ghost_heap = 1`) -/
+theorem inv_newLimited (limit : Nat) (a0 : Alloc) (h : newLimited limit = .ok a0) (hl : Gen.initGhostHeap ≤ limit) :
+    Inv a0 ∧ HeapOk a0 := by
+  unfold newLimited at h
+  split at h
+  · cases h
+  · next hle =>
+    cases h
+    refine ⟨⟨Closed.nil _, ?_, ?_, ?_⟩, hl⟩
+    · show ([] : List (Nat × Nat)).length + Gen.initGhostAtoms ≤ Gen.maxNumAtoms; decide
+    · show ([] : List (Ptr × Ptr)).length + Gen.initGhostPairs ≤ Gen.maxNumPairs; decide
+    · show limit ≤ u32Max; omega
+
+theorem heapLimit_newLimited (limit : Nat) (a0 : Alloc) (h : newLimited limit = .ok a0) : a0.heapLimit = limit := by
+  unfold newLimited at h
+  split at h
+  · cases h
+  · cases h; rfl
+
+theorem kind_oom {e : Err} (h : e.kind = Err.OutOfMemory.kind) : e = .OutOfMemory := by
+  cases e <;> first | rfl | (simp [Err.kind] at h)
+
+theorem kind_atoms {e : Err} (h : e.kind = Err.TooManyAtoms.kind) : e = .TooManyAtoms := by
+  cases e <;> first | rfl | (simp [Err.kind] at h)
+
+theorem kind_pairs {e : Err} (h : e.kind = Err.TooManyPairs.kind) : e = .TooManyPairs := by
+  cases e <;> first | rfl | (simp [Err.kind] at h)
+
+theorem refines_error {a : Alloc} {out : Out Ptr} {ref : Except Err (Tree × RefAlloc)} {e' : Err}
+    (h : Refines a out ref) (hr : ref = .error e') : ∃ e, out = (.error e, a) ∧ e.kind = e'.kind := by
+  subst hr
+  obtain ⟨res, a'⟩ := out
+  cases res with
+  | ok p => exact absurd h (by simp [Refines])
+  | error e => exact ⟨e, by rw [show a' = a from h.2], h.1⟩
+
+theorem refines_ok {a : Alloc} {out : Out Ptr} {ref : Except Err (Tree × RefAlloc)} {x : Tree × RefAlloc}
+    (h : Refines a out ref) (hr : ref = .ok x) : ∃ p a', out = (.ok p, a') := by
+  subst hr
+  obtain ⟨res, a'⟩ := out
+  cases res with
+  | ok p => exact ⟨p, a', rfl⟩
+  | error e => exact absurd h (by simp [Refines])
+
+theorem after_heapLimit (r : RefAlloc) (s : Session) (op : Op) (t : Tag) : (r.after s op t).heapLimit = r.heapLimit := by
+  unfold RefAlloc.after
+  cases t <;> cases op <;> simp only [RefAlloc.bump] <;> (try split) <;> rfl
+
+/-- the heap limit never changes along a history -/
+theorem run_heapLimit : ∀ (ops : List Op) (s sf : Session) (ts : List (Tag × Nat × Nat × Nat)), SInv s →
+    (∀ op ∈ ops, op.wf) → NoDefect s ops → s.run ops = .ok (sf, ts) → sf.a.heapLimit = s.a.heapLimit := by
+  intro ops
+  induction ops with
+  | nil => intro s sf ts _ _ _ h; simp only [Session.run] at h; cases h; rfl
+  | cons op ops ih =>
+    intro s sf ts hS hw hd h
+    obtain ⟨s1, t, ts', h1, h2, _⟩ := run_cons s op ops sf ts h
+    have hf := step_facts s hS op (hw op (by simp)) hd.1 s1 t h1
+    rw [ih s1 sf ts' hf.sinv (fun o ho => hw o (by simp [ho])) (hd.2 s1 t h1) h2]
+    have hc := congrArg RefAlloc.heapLimit hf.counts
+    rw [after_heapLimit] at hc
+    exact hc
+
 end Clvm.Alloc
